@@ -106,12 +106,63 @@ static void save_current(const std::vector<Op>& ops, unsigned perm) {
   if (pwrite(g_cur_fd, t.data(), t.size(), 0) == static_cast<ssize_t>(t.size())) { if (ftruncate(g_cur_fd, static_cast<off_t>(t.size())) != 0) {} }
 }
 
+// C07 metamorphic relation ("as if it had never existed"): remove one forbidding expectation F, its release and
+// every call for which F was the designated candidate; every remaining call must have the same outcome and the
+// same handler (identified by the position of the handler's create operation) in both worlds. Real vs real.
+static std::string forbid_metamorphic(const std::vector<Op>& ops, unsigned perm, const Interp& h) {
+  std::vector<size_t> forbids;
+  for (size_t i = 0; i < ops.size(); ++i)
+    if (ops[i].kind == O_CREATE && ops[i].at(CA_HI) == 0 && h.optrace[i].created_eid >= 0) forbids.push_back(i);
+  if (forbids.empty()) return "";
+  size_t fi = forbids[perm % forbids.size()];
+  int slot = ops[fi].at(CA_SLOT), lit = ops[fi].at(CA_LIT), feid = h.optrace[fi].created_eid;
+  // lifetime of F in H: until the first applicable release of its slot
+  size_t end = ops.size();
+  for (size_t i = fi + 1; i < ops.size(); ++i) if (ops[i].kind == O_RELEASE && ops[i].at(0) == slot && h.optrace[i].applicable) { end = i; break; }
+  // keep the two worlds in step: nothing else may compete for F's slot / literal location while F lives
+  for (size_t i = fi + 1; i < end; ++i)
+    if (ops[i].kind == O_CREATE && (ops[i].at(CA_SLOT) == slot || (lit >= 0 && ops[i].at(CA_LIT) == lit))) return "";
+  // a hit on F from a nested call (made by a side effect of an accepted outer call) cannot be removed without
+  // changing the outer call's effects: the two worlds would not stay in step
+  for (size_t i = 0; i < ops.size(); ++i) if (h.optrace[i].forbid_nested_eid == feid) return "";
+  std::vector<Op> ops2;
+  std::vector<size_t> origin;
+  for (size_t i = 0; i < ops.size(); ++i) {
+    if (i == fi || i == end) continue;
+    if (ops[i].kind == O_CALL && h.optrace[i].forbid_eid == feid) { ST.label("metamorphic_calls_removed"); continue; }
+    ops2.push_back(ops[i]);
+    origin.push_back(i);
+  }
+  Interp h2;
+  CaseResult r2 = h2.run(ops2, perm, false);
+  if (r2.degraded || h2.stop) return "";
+  ST.label("metamorphic_pairs");
+  auto creator = [](const Interp& w, const std::vector<size_t>* org, long eid) -> long {
+    for (size_t i = 0; i < w.optrace.size(); ++i) if (w.optrace[i].created_eid == eid) return static_cast<long>(org ? (*org)[i] : i);
+    return -1;
+  };
+  for (size_t j = 0; j < ops2.size(); ++j) {
+    size_t i = origin[j];
+    if (ops2[j].kind != O_CALL || !h.optrace[i].applicable || !h2.optrace[j].applicable) continue;
+    const CallResult &a = h.optrace[i].got, &b = h2.optrace[j].got;
+    bool same = a.kind == b.kind;
+    if (same && a.kind != R_FATAL && a.value > 0) same = creator(h, nullptr, a.value) == creator(h2, &origin, b.value);
+    ST.label("metamorphic_calls_compared");
+    if (!same) return "metamorphic (forbid created at op " + std::to_string(fi) + " removed): call at op " + std::to_string(i) + " (" + op_pretty(ops[i]) + ") gives " + show(a) + " with the forbid and " + show(b) + " without it";
+  }
+  return "";
+}
+
 static bool run_case(const std::vector<Op>& ops, unsigned perm, std::string* why) {
   save_current(ops, perm);
   Interp in;
   CaseResult r = in.run(ops, perm);
   account(ops, r);
   std::string f = first_relevant(r);
+  if (f.empty() && A.prop == "C07" && !r.degraded && !in.stop && r.mismatches.empty()) {
+    std::string mm = forbid_metamorphic(ops, perm, in);
+    if (!mm.empty()) f = "[forbid-metamorphic] " + mm;
+  }
   if (!f.empty()) {
     if (why) *why = f;
     std::string path = A.faildir + "/w_fail." + A.prop + "." + std::to_string(getpid()) + ".txt";
